@@ -490,8 +490,17 @@ class Interp:
             a, b = [self.operand(st, x) for x in split_top(m.group(2))]
             if isinstance(a, Sym) or isinstance(b, Sym):
                 w = max(a.w if isinstance(a, Sym) else 0, b.w if isinstance(b, Sym) else 0)
-                # symbolic operands here are bytes / small counters widened to usize: no overflow possible at 64 bits
+                # symbolic operands in the codec are bytes / small counters widened to usize: no overflow possible at 64 bits;
+                # interpreters created with exact_overflow=True (64-bit symbolic arguments) get the real flag
                 r = self.binop(m.group(1)[:3], self.widen(a, 64), self.widen(b, 64), dst_ty)
+                if getattr(self, "exact_overflow", False):
+                    ta, tb = self.term(a, 64), self.term(b, 64)
+                    op3 = m.group(1)[:3]
+                    if op3 == "Sub":
+                        return Adt("tuple", [r, SymB("(bvult %s %s)" % (ta, tb))])
+                    if op3 == "Add":
+                        return Adt("tuple", [r, SymB("(bvult (bvadd %s %s) %s)" % (ta, tb, ta))])
+                    raise Unsupported("exact overflow flag of a symbolic multiplication")
                 return Adt("tuple", [r, False])
             r = self.binop(m.group(1)[:3], a, b, dst_ty)
             wd = width_of(re.match(r"^\((\w+), bool\)$", dst_ty.strip()).group(1)) if dst_ty and re.match(r"^\((\w+), bool\)$", dst_ty.strip()) else (64, False)
@@ -950,6 +959,35 @@ class Interp:
             return None
         if re.search(r"OwningIovec::(<'_>::)?arena$", c):
             self.ret(st, dst, Adt("ArenaHandle", {}), nxt)
+            return None
+        if re.search(r"OwningIovec::(<'_>::)?stable_prefix$", c):
+            v = self.val(st, args[0])
+            self.ret(st, dst, v.get("stable"), nxt)
+            return None
+        if re.match(r"^<&\[IoSlice<'_>\] as IntoIterator>::into_iter$", c):
+            self.nback += 1
+            k = "iter:%d" % self.nback
+            self.ret(st, dst, Adt("SliceIter", {"items": self.as_slice(st, args[0]), "pos": 0}), nxt)
+            return None
+        if re.match(r"^<(std::slice::)?Iter<'_, IoSlice<'_>> as Iterator>::next$", c):
+            ref = args[0]
+            itv = self.val(st, ref)
+            items, pos = itv.get("items").elems, itv.get("pos")
+            if pos >= len(items):
+                self.ret(st, dst, Adt("None", []), nxt)
+            else:
+                self.write_at(st, ref.key, list(ref.proj), itv.with_field("pos", pos + 1))
+                self.ret(st, dst, Adt("Some", [items[pos]]), nxt)
+            return None
+        if re.match(r"^<IoSlice<'_> as Deref>::deref$", c):
+            self.ret(st, dst, self.val(st, args[0]), nxt)
+            return None
+        if re.match(r"^ConsumingIovec::<'_>::iovec(::<'_>)?$", c):
+            self.ret(st, dst, Ref("g:ciov", (("field", "inner"),)), nxt)
+            return None
+        if re.search(r"GlobalDeque::(<'_>::)?consume_by_bytes$", c):
+            st.events.append(("consume_by_bytes", args[1]))
+            self.ret(st, dst, args[1], nxt)
             return None
         if re.match(r"^ByteArena::read_n::<.*>$", c):
             return self.read_n_contract(st, dst, args, nxt)
